@@ -20,7 +20,7 @@ META = {
         'is recomputed or adjusted; (D4) replace without position keeps the position; (D6) "after" adds exactly '
         'one to a given position, before the insert; (D5) the delegating one-liners (__setitem__, __delitem__, '
         '__iter__, __len__, __getitem__, at, value_at, index, reverse, sort, pop_at, MetadataObject.append/extend) '
-        'have their documented normal forms; only SortableDict writes _order/_values.  Not decided: lock-step '
+        'have their documented normal forms; only SortableDict writes _order/_values.  Also (D5): sort/reverse may be written as a rebuild of _order from the CURRENT order (value-dict insertion order is a violation); MetadataObject.extend traverses its argument once (one-shot iterables).  Not decided: lock-step '
         'equality with a reference ordered map as an execution.'),
     'rule_text': 'obligations = paths of add_item x applicable facts, delegation normal forms, who-may-write sites',
     'trusted_base': ['list.insert/append/remove/index and dict semantics; MutableMapping mixin methods reduce to the '
@@ -70,6 +70,10 @@ def _classify(e, a):
     if isinstance(e, ast.Assign) and isinstance(e.targets[0], ast.Name) and norm(e.value) in (
             '%s.index(%s) + 1' % (s, pos_key), '%s._order.index(%s) + 1' % (s, pos_key)):
         return 'lookup+1'
+    if isinstance(e, ast.Assign) and isinstance(e.targets[0], ast.Name) and e.targets[0].id == index and norm(e.value) in (
+            '%s.index(%s) + int(%s)' % (s, pos_key, after), '%s._order.index(%s) + int(%s)' % (s, pos_key, after),
+            '%s.index(%s) + (1 if %s else 0)' % (s, pos_key, after), '%s.index(%s) + bool(%s)' % (s, pos_key, after)):
+        return 'lookup+after'
     # wrong-but-recognisable variants
     if isinstance(e, ast.Expr) and isinstance(e.value, ast.Call) and norm(e.value.func) == '%s._order.insert' % s:
         return 'ins?:' + t
@@ -238,11 +242,12 @@ def _add_item(ctx, meths):
             continue
         # ---- D6 arithmetic
         if 'ins' in tags:
-            last_lookup = max([i for i, t in enumerate(tags) if t in ('lookup', 'lookup+1')] or [-1])
+            last_lookup = max([i for i, t in enumerate(tags) if t in ('lookup', 'lookup+1', 'lookup+after')] or [-1])
             incs = [i for i, t in enumerate(tags) if t == 'inc' and i > last_lookup and i < tags.index('ins')]
             late = [i for i, t in enumerate(tags) if t == 'inc' and i > tags.index('ins')]
             arith = [t for t in tags if t.startswith('arith?:')]
-            n_inc = len(incs) + (1 if last_lookup >= 0 and tags[last_lookup] == 'lookup+1' else 0)
+            n_inc = len(incs) + (1 if last_lookup >= 0 and tags[last_lookup] == 'lookup+1' else 0) \
+                + (1 if last_lookup >= 0 and tags[last_lookup] == 'lookup+after' and is_after else 0)
             if arith:
                 V('C16.D6', arith[0].split(':', 1)[1],
                   'm = {a,b,c}; add_item("n", v, after=True, pos_key="a") does not land immediately after a',
@@ -494,15 +499,19 @@ def _delegations(ctx, m, meths):
         ctx.violation('C16.D5', '%s::MetadataObject' % FM, 'def extend', 'meta.extend([...]) fails',
                       'MetadataObject.extend is missing', file=FM, engine='E9')
     else:
+        pa = [x.arg for x in ex.args.args]
+        sp, ip = pa[0], pa[1] if len(pa) > 1 else 'items'
+        rp = pa[2] if len(pa) > 2 else 'replace'
         loops = [x for x in walk_no_nested(ex) if isinstance(x, ast.For)]
         ok = False
         for lp in loops:
             if isinstance(lp.target, ast.Tuple) and len(lp.target.elts) == 2:
                 k, v = [norm(e) for e in lp.target.elts]
-                if [norm(b) for b in lp.body] == ['self.append(%s, %s, replace=replace)' % (k, v)] \
-                        and norm(lp.iter) == 'items':
+                if [norm(b_) for b_ in lp.body] in (['%s.append(%s, %s, replace=%s)' % (sp, k, v, rp)],
+                                                    ['%s.add_item(%s, %s, replace=%s)' % (sp, k, v, rp)]) \
+                        and norm(lp.iter) == ip:
                     ok = True
-        conv = any(norm(x) == 'items = list(items.items())' for x in walk_no_nested(ex) if isinstance(x, ast.Assign))
+        conv = any(norm(x) == '%s = list(%s.items())' % (ip, ip) for x in walk_no_nested(ex) if isinstance(x, ast.Assign))
         if ok and conv:
             ctx.ob('C16.D5', 'MetadataObject.extend appends every (key, value) pair in order; dicts via items()',
                    True, '%s:%d' % (FM, ex.lineno))
@@ -513,6 +522,32 @@ def _delegations(ctx, m, meths):
                           line=ex.lineno, engine='E9')
         else:
             ctx.error('C16.D5', 'MetadataObject.extend not recognised')
+        # the argument may be any iterable (a zip, a generator): it can be traversed once only, unless it was
+        # turned into a list on every path first
+        sites = []
+        for x in ast.walk(ex):
+            if isinstance(x, ast.For) and norm(x.iter) == ip:
+                sites.append(x)
+            elif isinstance(x, ast.comprehension) and norm(x.iter) == ip:
+                sites.append(x.iter)
+            elif isinstance(x, ast.Call) and norm(x.func) in ('len', 'sorted', 'any', 'all', 'sum', 'max', 'min', 'dict', 'set') \
+                    and x.args and norm(x.args[0]) == ip:
+                sites.append(x)
+        sites.sort(key=lambda z: (z.lineno, z.col_offset))
+        body = body_wo_doc(ex)
+        material = [st for st in body if isinstance(st, ast.Assign) and norm(st.targets[0]) == ip
+                    and norm(st.value) in ('list(%s)' % ip, 'tuple(%s)' % ip)]
+        if len(sites) >= 2 and not (material and material[0].lineno < sites[0].lineno):
+            second = sites[1]
+            ctx.violation('C16.D5', '%s::MetadataObject.extend' % FM, 'second traversal of `%s` at line %d (first at line %d)'
+                          % (ip, second.lineno, sites[0].lineno),
+                          'meta.extend(zip(["a", "b"], [1, 2]), replace=False) (or a generator of pairs): the first traversal '
+                          'at line %d uses the iterator up, the loop that appends sees nothing and extend() returns having '
+                          'added no tag' % sites[0].lineno,
+                          'extend traverses its argument twice; only dict arguments are turned into a list first',
+                          file=FM, line=second.lineno, engine='E6')
+        else:
+            ctx.ob('C16.D5', 'extend traverses its argument once (%d site)' % len(sites), True, '%s:%d' % (FM, ex.lineno))
 
 
 def _who_may_write(ctx, m):
